@@ -33,7 +33,7 @@ type Op struct {
 	Kind  string `json:"kind"`  // out | close | fflush | fflushall | system-echo | system-exit | system-size
 	Dest  string `json:"dest"`  // stdout | f0 f1 f2 | c0..c5
 	Mode  string `json:"mode"`  // > or >> for files
-	Form  int    `json:"form"`  // 0 print, 1 printf, 2 multi-argument print
+	Form  int    `json:"form"`  // 0 print, 1 printf, 2 multi-argument print, 3 printf of the empty string
 	Alias int    `json:"alias"` // which of two expressions spells the name
 }
 
@@ -101,7 +101,7 @@ func genCase(t *rapid.T) Case {
 		case "out":
 			op.Dest = rapid.SampledFrom(dests).Draw(t, "dest")
 			op.Mode = rapid.SampledFrom([]string{">", ">>"}).Draw(t, "mode")
-			op.Form = rapid.IntRange(0, 2).Draw(t, "form")
+			op.Form = rapid.IntRange(0, 3).Draw(t, "form")
 			op.Alias = rapid.IntRange(0, 1).Draw(t, "alias")
 		case "close", "fflush":
 			op.Dest = rapid.SampledFrom(dests[2:]).Draw(t, "dest")
@@ -147,6 +147,12 @@ func payload(k int, dest string, form int) (stmtArgs string, line string) {
 		return fmt.Sprintf(`print "L%d-%s"`, k, dest), fmt.Sprintf("L%d-%s", k, dest)
 	case 1:
 		return fmt.Sprintf(`printf "%%s-%%s\n", "L%d", "%s"`, k, dest), fmt.Sprintf("L%d-%s", k, dest)
+	case 3:
+		// nothing is written, but the destination is opened all the same (the `printf "" > file` idiom)
+		if k%2 == 0 {
+			return `printf ""`, ""
+		}
+		return `printf "%s", unset_` + fmt.Sprint(k), ""
 	default:
 		return fmt.Sprintf(`print "L%d", "m", "%s"`, k, dest), fmt.Sprintf("L%d m %s", k, dest)
 	}
@@ -176,7 +182,9 @@ func build(c Case) *model {
 			switch {
 			case op.Dest == "stdout":
 				fmt.Fprintf(&body, "  %s\n", st)
-				emitOwn(k, line)
+				if op.Form != 3 {
+					emitOwn(k, line)
+				}
 			case strings.HasPrefix(op.Dest, "f"):
 				fmt.Fprintf(&body, "  %s %s %s\n", st, op.Mode, nameExpr(op.Dest, op.Alias))
 				if !openFile[op.Dest] {
@@ -188,7 +196,11 @@ func build(c Case) *model {
 						m.files[op.Dest] = ""
 					}
 				}
-				m.files[op.Dest] += line + "\n"
+				if op.Form != 3 {
+					m.files[op.Dest] += line + "\n"
+				} else {
+					m.files[op.Dest] += "" // the file exists from now on
+				}
 			default:
 				fmt.Fprintf(&body, "  %s | %s\n", st, nameExpr(op.Dest, op.Alias))
 				ch := open[op.Dest]
@@ -200,9 +212,11 @@ func build(c Case) *model {
 					open[op.Dest] = ch
 					m.children = append(m.children, ch)
 				}
-				ch.lines = append(ch.lines, line)
-				if op.Dest == "c1" {
-					m.files["p1"] += line + "\n"
+				if op.Form != 3 {
+					ch.lines = append(ch.lines, line)
+					if op.Dest == "c1" {
+						m.files["p1"] += line + "\n"
+					}
 				}
 				for i := 0; i < c.Fill && sharesStdout(op.Dest); i++ {
 					fill := fmt.Sprintf("F%d-%d", k, i)
